@@ -6,6 +6,7 @@ the bandwidth is re-adapted inside every solve, with the feature matrix current 
 Mathlib-free, scalar-generic (runs at `Float` in `Drv/C19.lean`, proved at `ℝ` in `Lemmas/Median.lean`).
 -/
 import Xrfmv.Model.Kernel
+import Xrfmv.Gen.Bandwidth
 
 namespace Xrfmv.Median
 open Xrfmv Xrfmv.Kernel
@@ -32,11 +33,12 @@ def pairDists {α β : Type} (d : β → β → α) (pts : List β) : List α :=
 section adapt
 variable {α : Type} [LE α] [DecidableLE α] [LT α] [DecidableLT α] [Mul α] [OfNat α 1]
 
-/-- `bandwidth = base_bandwidth * (1 if median < eps else median)`; `eps = 1e-14` in the code.
+/-- `bandwidth = base_bandwidth * (1 if median < eps else median)` — both expressions are the regenerated
+`Gen.Bandwidth.adapted` / `guardMult`; `eps = 1e-14` in the code (`Gen.Bandwidth.guardEpsExp10`).
 `none` when there is no off-diagonal entry (fewer than two centers: `torch.median` of an empty
 tensor raises). -/
 def adapt (eps base : α) (dists : List α) : Option α :=
-  (lowerMedian dists).map fun m => base * (if m < eps then 1 else m)
+  (lowerMedian dists).map fun m => Xrfmv.Gen.Bandwidth.adapted base (Xrfmv.Gen.Bandwidth.guardMult eps m)
 
 end adapt
 
@@ -67,7 +69,7 @@ structure Iterate (α : Type) where
 def solveStep (O : Oracles α) (eps : α) (K0 : Spec α) (X Y : List (List α)) (T : Transform α) :
     Option (Iterate α) :=
   (lowerMedian (pairDists (dist K0 T) X)).map fun m =>
-    let K := K0.withL (K0.L * (if m < eps then 1 else m))
+    let K := K0.withL (Xrfmv.Gen.Bandwidth.adapted K0.L (Xrfmv.Gen.Bandwidth.guardMult eps m))
     { K := K, T := T, alpha := O.solve (matrix K T X X) Y, med := m }
 
 /-- Iterate `i` of `RFM.fit` (`K0.L` = base bandwidth): iterate 0 uses no transform (`M = None`), iterate
